@@ -163,7 +163,9 @@ func cmdProp(args []string) {
 				}
 				continue
 			}
-			if len(ob.Props) == 0 || hasProp(ob.Props, *id) {
+			// the synchronisation obligations of a function (guard:*, lock:*) belong to every property the function is
+			// verified for: all its other proofs assume the lock discipline
+			if len(ob.Props) == 0 || hasProp(ob.Props, *id) || ((ob.Kind == "guard" || ob.Kind == "lock") && inC09Package(k)) {
 				mine = append(mine, ob)
 			}
 		}
@@ -637,8 +639,21 @@ func (e *Engine) runBounded(id, repo, verif, tier string) []boundedRun {
 
 // c09Roots: the entry points of the packages named by C09: exported functions and methods, function literals,
 // and everything under contract. Unexported helpers without a contract are covered by inlining from their callers.
+var c09Packages = []string{"/roundrobin", "/cbreaker", "/memmetrics", "/ratelimit", "/connlimit", "/internal/holsterv4/collections", "/trace"}
+
+// inC09Package: the function (key pkgpath.name) belongs to one of the packages whose types carry complete
+// synchronisation declarations (the packages C09 names).
+func inC09Package(funcKey string) bool {
+	for _, p := range c09Packages {
+		if strings.HasPrefix(funcKey, oxyMod+p+".") {
+			return true
+		}
+	}
+	return false
+}
+
 func c09Roots(e *Engine) []string {
-	pkgs := []string{"/roundrobin", "/cbreaker", "/memmetrics", "/ratelimit", "/connlimit", "/internal/holsterv4/collections", "/trace"}
+	pkgs := c09Packages
 	var out []string
 	for k, f := range e.funcs {
 		in := false
